@@ -1038,6 +1038,10 @@ pub fn run(opts: &Opts) -> i32 {
             let mut out = Out::new(&dir, &format!("s{sh}"));
             let mut rng = Rng::new(seed.wrapping_mul(2_654_435_761).wrapping_add(sh));
             let mut nontrivial = 0u64;
+            if sh == 1 {
+                let (case, res, verdict) = directed_fold_zero(&keep);
+                out.emit3(&case, &res, &verdict);
+            }
             // bulkdel=1: shard 0 adds the directed workload whose single flush retires more
             // non-adjacent extents than one journal transaction names (recipe bulkdel)
             let extra_w = (bulkdel && sh == 0) as u64;
@@ -1836,6 +1840,89 @@ fn reads_verdict(t: &Trace) -> Option<String> {
         }
     }
     None
+}
+
+/// Directed (C03/C02/C10): a version-3 record whose CRC-32C folds to 0 -- the one record in 65536
+/// whose token is stored as 1 -- written through the public API as the first allocation of a
+/// fresh device (block 16), acknowledged by a flush.  The byte copy of the device taken right
+/// after the acknowledgement (a crash image) and the cleanly closed file must both reopen and
+/// expose the acknowledged value.  The input is found with the harness's own CRC.
+pub fn directed_fold_zero(dir: &str) -> (String, String, String) {
+    use crate::codec::{fold_is_zero, own_crc_update};
+    let path = format!("{dir}/foldzero_{}.feox", std::process::id());
+    let copy = format!("{path}.crash");
+    let _ = std::fs::remove_file(&path);
+    let key = b"fz";
+    let ts: u64 = 1_700_000_000_000_000_000;
+    let header = 2 + 2 + 2 + key.len() + 8 + 8 + 8;
+    let run = || -> Result<String, String> {
+        let mut found = 0;
+        for (blocks, sector) in [(1usize, 16u64), (2, 17)] {
+            // the record fills its extent exactly, so the last value bytes are the last CRC input
+            let vlen = blocks * 4096 - header;
+            let mut value: Vec<u8> = (0..vlen).map(|i| (i * 31 + 7 + blocks) as u8).collect();
+            let mut image = Vec::with_capacity(blocks * 4096);
+            image.extend_from_slice(&0xABCDu16.to_le_bytes());
+            image.extend_from_slice(&[0, 0]);
+            image.extend_from_slice(&(key.len() as u16).to_le_bytes());
+            image.extend_from_slice(key);
+            image.extend_from_slice(&(vlen as u64).to_le_bytes());
+            image.extend_from_slice(&ts.to_le_bytes());
+            image.extend_from_slice(&0u64.to_le_bytes());
+            image.extend_from_slice(&value);
+            let n = image.len();
+            let prefix = own_crc_update(own_crc_update(!0u32, &sector.to_le_bytes()), &image[..n - 4]);
+            let mut hit = false;
+            for c in 0..4_000_000u32 {
+                if fold_is_zero(!own_crc_update(prefix, &c.to_le_bytes())) {
+                    value[vlen - 4..].copy_from_slice(&c.to_le_bytes());
+                    hit = true;
+                    break;
+                }
+            }
+            if !hit {
+                continue;
+            }
+            let _ = std::fs::remove_file(&path);
+            let build = |p: &str| FeoxStore::builder().device_path(p.to_string()).file_size(4 << 20).enable_caching(false).build();
+            let store = build(&path).map_err(|e| format!("cannot-create-store {e}"))?;
+            if blocks == 2 {
+                // a one-block record first, so that the two-block one lands at block 17
+                store.insert(b"first", b"x").map_err(|e| format!("insert {e}"))?;
+                store.flush().map_err(|e| format!("flush {e}"))?;
+            }
+            let kname = if blocks == 1 { &key[..] } else { &key[..] };
+            store.insert_with_timestamp(kname, &value, Some(ts)).map_err(|e| format!("insert {e}"))?;
+            store.flush().map_err(|e| format!("flush {e}"))?;
+            let landed = store.verif_snapshot().iter().find(|r| r.key == kname).map(|r| r.sector).unwrap_or(0);
+            if landed != sector {
+                drop(store);
+                continue; // not the predicted sector: the fold is not zero there, nothing to decide
+            }
+            found += 1;
+            std::fs::copy(&path, &copy).map_err(|e| format!("copy {e}"))?;
+            drop(store);
+            for (what, p) in [("crash-image-after-the-acknowledged-flush", &copy), ("cleanly-closed-file", &path)] {
+                match build(p) {
+                    Ok(st) => match st.get(kname) {
+                        Ok(v) if v == value => {}
+                        Ok(_) => return Err(format!("{what}-returns-other-bytes blocks={blocks}")),
+                        Err(e) => return Err(format!("{what}-lost-the-acknowledged-key blocks={blocks} error={e}")),
+                    },
+                    Err(e) => return Err(format!("{what}-does-not-reopen blocks={blocks} error={e} (a record whose checksum folds to 0, token stored as 1)")),
+                }
+            }
+        }
+        Ok(format!("records-with-fold-zero={found}"))
+    };
+    let (status, verdict) = match std::panic::catch_unwind(std::panic::AssertUnwindSafe(run)) {
+        Ok(Ok(s)) => (s, "ok".to_string()),
+        Ok(Err(e)) => ("failed".to_string(), format!("FAIL {e}").replace(": ", "=")),
+        Err(_) => ("panicked".to_string(), "FAIL an-api-call-panicked".to_string()),
+    };
+    let _ = std::fs::remove_file(&path);
+    let _ = std::fs::remove_file(&copy);
+    (format!("note directed=fold-zero-record {status}"), "note".to_string(), verdict)
 }
 
 /// engine `fault` (C09): single faults at every device call (before / after), pairs, persistent
